@@ -1,5 +1,5 @@
 // A-U256: ethnum::U256 as an opaque 256-bit unsigned integer (view: nat < 2^256).  Hand-written ASSUMED contracts.
 #[verifier::external_body] #[derive(Clone, Copy)] pub struct U256 { _p: [u128; 2] }
 impl View for U256 { type V = nat; uninterp spec fn view(&self) -> nat; }
-pub broadcast axiom fn axiom_u256_range(x: U256) ensures (#[trigger] x@) < 0x1_0000_0000_0000_0000_0000_0000_0000_0000_0000_0000_0000_0000_0000_0000_0000_0000;
+pub broadcast axiom fn axiom_u256_range(x: U256) ensures (#[trigger] x@) < vstd::arithmetic::power2::pow2(256);
 pub broadcast axiom fn axiom_u256_ext(a: U256, b: U256) requires #[trigger] a@ == #[trigger] b@ ensures a == b;
